@@ -46,13 +46,13 @@ func (p *Path) unop(fr *frame, in *ssa.UnOp) Value {
 	case token.SUB:
 		switch x := x.(type) {
 		case *Term:
-			return wrapInt(Neg(x), in.Type())
+			return p.wrap(Neg(x), in.Type())
 		case FloatV:
 			return x
 		}
 	case token.XOR:
 		if t, ok := x.(*Term); ok {
-			return wrapInt(Sub(Neg(t), TInt64(1)), in.Type())
+			return p.wrap(Sub(Neg(t), TInt64(1)), in.Type())
 		}
 	}
 	p.unsupported("unop %s on %T", in.Op, x)
@@ -118,18 +118,18 @@ func (p *Path) binop(op token.Token, xt types.Type, x, y Value, pos token.Pos, r
 	}
 	switch op {
 	case token.ADD:
-		return wrapInt(Add(a, b), xt)
+		return p.wrap(Add(a, b), xt)
 	case token.SUB:
-		return wrapInt(Sub(a, b), xt)
+		return p.wrap(Sub(a, b), xt)
 	case token.MUL:
-		return wrapInt(Mul(a, b), xt)
+		return p.wrap(Mul(a, b), xt)
 	case token.QUO:
 		p.panicIf(Eq(b, TInt64(0)), p.site(pos), "integer divide by zero")
-		return wrapInt(p.tdiv(a, b), xt)
+		return p.wrap(p.tdiv(a, b), xt)
 	case token.REM:
 		p.panicIf(Eq(b, TInt64(0)), p.site(pos), "integer divide by zero")
 		q := p.tdiv(a, b)
-		return wrapInt(Sub(a, Mul(q, b)), xt)
+		return p.wrap(Sub(a, Mul(q, b)), xt)
 	case token.LSS:
 		return Lt(a, b)
 	case token.LEQ:
@@ -140,7 +140,7 @@ func (p *Path) binop(op token.Token, xt types.Type, x, y Value, pos token.Pos, r
 		return Le(b, a)
 	case token.SHL:
 		if b.IsConst() {
-			return wrapInt(Mul(a, TInt(new(big.Int).Lsh(bigOne, uint(b.i.Int64())))), xt)
+			return p.wrap(Mul(a, TInt(new(big.Int).Lsh(bigOne, uint(b.i.Int64())))), xt)
 		}
 	case token.SHR:
 		if b.IsConst() {
@@ -175,26 +175,123 @@ func (p *Path) binop(op token.Token, xt types.Type, x, y Value, pos token.Pos, r
 	return nil
 }
 
+// proves asks the solver whether the path condition implies c (cached per path; unknown = not proven).
+func (p *Path) proves(c *Term) bool {
+	if c == TTrue {
+		return true
+	}
+	if c == TFalse {
+		return false
+	}
+	if p.lenient > 0 {
+		return false
+	}
+	if p.proved == nil {
+		p.proved = map[int]int8{}
+	}
+	// results are cached both ways so that the same question gets the same answer everywhere on the path
+	// (term shapes then agree between the two runs of relational harnesses even when a query times out)
+	if r, ok := p.proved[c.id]; ok {
+		return r > 0
+	}
+	if p.knobs["no_solver_simplify"] != 0 {
+		return false
+	}
+	s := p.w.inc
+	s.Push()
+	s.Assert(Not(c))
+	r := s.Check(p.eng.cfg.FeasTimeoutMS)
+	s.Pop()
+	if r == "unsat" {
+		p.proved[c.id] = 1
+		return true
+	}
+	p.proved[c.id] = -1
+	return false
+}
+
+// nonneg: structural sign reasoning (products / sums of non-negative parts) before falling back on the solver.
+func (p *Path) nonneg(t *Term, depth int) bool {
+	if t.lo != nil && t.lo.Sign() >= 0 {
+		return true
+	}
+	if t.hi != nil && t.hi.Sign() < 0 {
+		return false
+	}
+	if depth < 4 {
+		switch t.op {
+		case "*":
+			if p.nonneg(t.args[0], depth+1) && p.nonneg(t.args[1], depth+1) {
+				return true
+			}
+		case "lin":
+			if t.i.Sign() >= 0 {
+				all := true
+				for i, a := range t.args {
+					if t.coefs[i].Sign() < 0 || !p.nonneg(a, depth+1) {
+						all = false
+						break
+					}
+				}
+				if all {
+					return true
+				}
+			}
+		}
+	}
+	return p.proves(Ge(t, TInt64(0)))
+}
+
+// wrap reduces x to the machine type t; the wrap-around expression is elided when the interval of x, or the
+// solver under the current path condition, shows that x fits.
+func (p *Path) wrap(x *Term, t types.Type) *Term {
+	b := basicOf(t)
+	if b == nil {
+		return x
+	}
+	r, ok := intRanges[b.Kind()]
+	if !ok {
+		return x
+	}
+	if x.IsConst() || (x.lo != nil && x.hi != nil && x.lo.Cmp(r.lo) >= 0 && x.hi.Cmp(r.hi) <= 0) {
+		return wrapInt(x, t)
+	}
+	if p.proves(And(Ge(x, TInt(r.lo)), Le(x, TInt(r.hi)))) {
+		return x
+	}
+	return wrapInt(x, t)
+}
+
 // tdiv: Go truncated division a / b with b != 0 already ensured.
 func (p *Path) tdiv(a, b *Term) *Term {
 	if a.IsConst() && b.IsConst() {
 		return TInt(new(big.Int).Quo(a.i, b.i))
 	}
-	if b.IsConst() {
-		if b.i.Sign() > 0 {
-			return TDivPos(a, b)
-		}
-		return Neg(TDivPos(a, TInt(new(big.Int).Neg(b.i))))
-	}
-	if b.lo != nil && b.lo.Sign() > 0 {
-		if a.lo != nil && a.lo.Sign() >= 0 {
+	aNonneg := p.nonneg(a, 0)
+	aNonpos := !aNonneg && ((a.hi != nil && a.hi.Sign() <= 0) || p.proves(Le(a, TInt64(0))))
+	sdiv := func(a, b *Term) *Term { // b > 0
+		switch {
+		case aNonneg:
 			return p.divQR(a, b)
+		case aNonpos:
+			return Neg(p.divQR(Neg(a), b))
 		}
 		return Ite(Ge(a, TInt64(0)), p.divQR(a, b), Neg(p.divQR(Neg(a), b)))
 	}
+	if b.IsConst() {
+		if b.i.Sign() > 0 {
+			return sdiv(a, b)
+		}
+		return Neg(sdiv(a, TInt(new(big.Int).Neg(b.i))))
+	}
+	if (b.lo != nil && b.lo.Sign() > 0) || p.proves(Gt(b, TInt64(0))) {
+		return sdiv(a, b)
+	}
+	if (b.hi != nil && b.hi.Sign() < 0) || p.proves(Lt(b, TInt64(0))) {
+		return Neg(sdiv(a, Neg(b)))
+	}
 	// general signs
-	ab := Abs(b)
-	q := Ite(Ge(a, TInt64(0)), p.divQR(a, ab), Neg(p.divQR(Neg(a), ab)))
+	q := sdiv(a, Abs(b))
 	return Ite(Gt(b, TInt64(0)), q, Neg(q))
 }
 
@@ -207,10 +304,20 @@ func (p *Path) divQR(a, b *Term) *Term {
 	if p.knobs["nested_div"] != 0 {
 		return Div(a, b)
 	}
+	if x := exactQuot(a, b); x != nil {
+		return x
+	}
 	name := fmt.Sprintf("q!%d_%d", a.id, b.id)
 	rname := fmt.Sprintf("r!%d_%d", a.id, b.id)
+	if q, ok := p.divCache[name]; ok {
+		return q
+	}
 	guard := And(Ge(a, TInt64(0)), Gt(b, TInt64(0)))
+	if guard != TTrue && p.nonneg(a, 0) && ((b.lo != nil && b.lo.Sign() > 0) || p.proves(Gt(b, TInt64(0)))) {
+		guard = TTrue
+	}
 	var q, r *Term
+	under := func(t *Term) *Term { return Implies(guard, t) }
 	if guard == TTrue {
 		// operands known non-negative / positive: q and r inherit intervals; bounds asserted unfolded
 		var rhi *big.Int
@@ -219,21 +326,51 @@ func (p *Path) divQR(a, b *Term) *Term {
 		}
 		q = TSymRange(name, bigZero, a.hi)
 		r = TSymRange(rname, bigZero, rhi)
-		ax := And(build("=", SBool, a, Add(Mul(q, b), r)), build("<=", SBool, TInt64(0), r), build("<", SBool, r, b), build("<=", SBool, TInt64(0), q))
-		p.addAxiom(name, ax)
-		return q
+		p.assume(And(build("=", SBool, a, Add(Mul(q, b), r)), build("<=", SBool, TInt64(0), r), build("<", SBool, r, b), build("<=", SBool, TInt64(0), q)))
+	} else {
+		q = TSym(name+"g", SInt)
+		r = TSym(rname+"g", SInt)
+		p.assume(under(And(Eq(a, Add(Mul(q, b), r)), Ge(r, TInt64(0)), Lt(r, b), Ge(q, TInt64(0)))))
 	}
-	q = TSym(name+"g", SInt)
-	r = TSym(rname+"g", SInt)
-	ax := Implies(guard, And(Eq(a, Add(Mul(q, b), r)), Ge(r, TInt64(0)), Lt(r, b), Ge(q, TInt64(0))))
-	p.addAxiom(name, ax)
+	if p.divCache == nil {
+		p.divCache = map[string]*Term{}
+	}
+	p.divCache[name] = q
+	// sound lemma instances that NIA solvers do not find by themselves
+	for _, o := range p.divs {
+		if o.b == b && o.a != a {
+			// floor division is monotone in the dividend
+			p.assume(under(Implies(o.g, And(Implies(Le(a, o.a), Le(q, o.q)), Implies(Le(o.a, a), Le(o.q, q))))))
+			// products sharing a non-negative factor are ordered like the other factor
+			c1, m1 := linFactor(a)
+			c2, m2 := linFactor(o.a)
+			if m1.op == "*" && m2.op == "*" && c1.Cmp(c2) == 0 && c1.Sign() > 0 {
+				for i := 0; i < 2; i++ {
+					for j := 0; j < 2; j++ {
+						if m1.args[i] == m2.args[j] {
+							u, v1, v2 := m1.args[i], m1.args[1-i], m2.args[1-j]
+							p.assume(Implies(Ge(u, TInt64(0)), And(Implies(Le(v1, v2), Le(a, o.a)), Implies(Le(v2, v1), Le(o.a, a)))))
+						}
+					}
+				}
+			}
+		}
+	}
+	p.divs = append(p.divs, divRec{a, b, q, guard})
+	// a = c*(u*v): comparing one factor with the divisor bounds the quotient by c*(other factor)
+	if c, at := linFactor(a); at.op == "*" && c.Sign() > 0 {
+		for k := 0; k < 2; k++ {
+			u, v := at.args[k], at.args[1-k]
+			cu := Mul(TInt(c), u)
+			p.assume(under(Implies(Ge(u, TInt64(0)), And(Implies(Eq(v, b), Eq(q, cu)), Implies(Le(v, b), Le(q, cu)), Implies(Ge(v, b), Ge(q, cu))))))
+		}
+	}
 	return q
 }
 
+type divRec struct{ a, b, q, g *Term }
+
 func (p *Path) addAxiom(key string, ax *Term) {
-	if p.findings == nil {
-		p.findings = map[string]bool{}
-	}
 	if p.findings["ax:"+key] {
 		return
 	}
@@ -376,7 +513,7 @@ func (p *Path) conv(dst, src types.Type, x Value) Value {
 			switch v := x.(type) {
 			case *Term:
 				if v.sort == SInt {
-					return wrapInt(v, dst)
+					return p.wrap(v, dst)
 				}
 			case FloatV:
 				p.unsupported("float to int conversion")
@@ -521,11 +658,39 @@ func (p *Path) sliceOp(fr *frame, in *ssa.Slice) Value {
 			p.panicNow(p.site(in.Pos()), "string slice bounds out of range", nil)
 		}
 		return TStr(v.s[lo:hi])
-	case BytesV, BlobV:
+	case BytesV:
 		if in.Low == nil && in.High == nil {
 			return v
 		}
-		p.unsupported("sub-slice of opaque bytes")
+		cp, full := constPrefix(v.S)
+		lo = 0
+		if in.Low != nil {
+			lo = p.concreteIndex(p.get(fr, in.Low), 1<<20, "slice low")
+		}
+		if in.High != nil {
+			hi = p.concreteIndex(p.get(fr, in.High), 1<<20, "slice high")
+			if int64(len(cp)) >= hi && lo <= hi {
+				return p.conv(types.NewSlice(types.Typ[types.Uint8]), types.Typ[types.String], TStr(cp[lo:hi]))
+			}
+			p.unsupported("sub-slice [%d:%d] of symbolic bytes %v", lo, hi, v.S)
+		}
+		// v[lo:]
+		if full {
+			if lo > int64(len(cp)) {
+				p.panicNow(p.site(in.Pos()), "slice bounds out of range", nil)
+			}
+			return p.conv(types.NewSlice(types.Typ[types.Uint8]), types.Typ[types.String], TStr(cp[lo:]))
+		}
+		if int64(len(cp)) >= lo && v.S.op == "str.++" && v.S.args[0].IsConst() && int64(len(v.S.args[0].s)) >= lo {
+			rest := append([]*Term{TStr(v.S.args[0].s[lo:])}, v.S.args[1:]...)
+			return BytesV{Concat(rest...)}
+		}
+		p.unsupported("sub-slice [%d:] of symbolic bytes %v", lo, v.S)
+	case BlobV:
+		if in.Low == nil && in.High == nil {
+			return v
+		}
+		p.unsupported("sub-slice of blob")
 	}
 	p.unsupported("slice of %T", x)
 	return nil
@@ -884,6 +1049,8 @@ func (p *Path) callBuiltin(fr *frame, b *ssa.Builtin, args []Value, pos token.Po
 		return Iface{}
 	case "print", "println":
 		return nil
+	case "ssa:deferstack":
+		return nil
 	case "ssa:wrapnilchk":
 		if ptr, ok := args[0].(*Value); ok && ptr == nil {
 			p.panicNow(p.site(pos), "value method "+showValue(args[1], 2)+"."+showValue(args[2], 2)+" called using nil pointer", nil)
@@ -969,4 +1136,28 @@ func (p *Path) bytesToTerm(v Value) *Term {
 	}
 	p.unsupported("bytes of %T", v)
 	return nil
+}
+
+// exactQuot: if a is syntactically a multiple of b (every monomial of a contains b as a factor) returns a/b.
+func exactQuot(a, b *Term) *Term {
+	l := toLin(a)
+	if l.k.Sign() != 0 || len(l.atoms) == 0 {
+		return nil
+	}
+	r := TInt64(0)
+	for i, at := range l.atoms {
+		var other *Term
+		switch {
+		case at == b:
+			other = TInt64(1)
+		case at.op == "*" && at.args[0] == b:
+			other = at.args[1]
+		case at.op == "*" && at.args[1] == b:
+			other = at.args[0]
+		default:
+			return nil
+		}
+		r = Add(r, Mul(TInt(l.coefs[i]), other))
+	}
+	return r
 }
